@@ -41,6 +41,9 @@ type Prog struct {
 
 	cha, vta *callgraph.Graph
 	allFuncs map[*ssa.Function]bool
+
+	// Canon is what the canonicalisation pre-pass did (nil when it had nothing to do).
+	Canon *Canon
 }
 
 // LoadOptions selects the build configuration.
@@ -48,6 +51,8 @@ type LoadOptions struct {
 	Dir    string
 	Tags   string
 	GOARCH string
+	// NoCanon skips the canonicalisation pre-pass (used to generate the known-function table).
+	NoCanon bool
 }
 
 // Load loads and type-checks the module at opt.Dir and builds SSA.
@@ -90,7 +95,35 @@ func Load(opt LoadOptions) (*Prog, error) {
 	if len(errs) > 0 {
 		return nil, fmt.Errorf("type-check/load errors: %s", strings.Join(errs, "; "))
 	}
-	p := &Prog{RepoDir: opt.Dir, Pkgs: pkgs, ModSSA: map[string]*ssa.Package{}, byName: map[string]*ssa.Function{}}
+	var canon *Canon
+	aliasByCurrent = map[string]string{}
+	if !opt.NoCanon {
+		cn, err := Canonicalize(pkgs)
+		if err != nil {
+			return nil, err
+		}
+		if len(cn.Overlay) > 0 || len(cn.Aliases) > 0 {
+			canon = cn
+			aliasByCurrent = cn.Aliases
+		}
+		if len(cn.Overlay) > 0 {
+			cfg.Overlay = cn.Overlay
+			pkgs, err = packages.Load(cfg, "./...")
+			if err != nil {
+				return nil, fmt.Errorf("packages.Load (canonicalised view): %w", err)
+			}
+			errs = nil
+			packages.Visit(pkgs, nil, func(p *packages.Package) {
+				for _, e := range p.Errors {
+					errs = append(errs, e.Error())
+				}
+			})
+			if len(errs) > 0 {
+				return nil, fmt.Errorf("type-check/load errors in the canonicalised view: %s", strings.Join(errs, "; "))
+			}
+		}
+	}
+	p := &Prog{RepoDir: opt.Dir, Pkgs: pkgs, ModSSA: map[string]*ssa.Package{}, byName: map[string]*ssa.Function{}, Canon: canon}
 	p.Fset = pkgs[0].Fset
 	prog, _ := ssautil.AllPackages(pkgs, ssa.InstantiateGenerics)
 	prog.Build()
@@ -148,7 +181,7 @@ func (p *Prog) InModule(fn *ssa.Function) bool {
 
 // ShortName renders a function name with the module path abbreviated to "dig".
 func ShortName(fn *ssa.Function) string {
-	return strings.ReplaceAll(fn.String(), ModPath, "dig")
+	return aliasShort(fn, strings.ReplaceAll(fn.String(), ModPath, "dig"))
 }
 
 // Func returns the module function with the given short name, e.g.
